@@ -71,8 +71,19 @@ void case_mock(uint64_t idx, vh::Rng& rng) {
     std::atomic<bool> done{false};
     Outcome o;
     std::thread runner{[&] { o = run_writer(path, c, D, rng.coin() ? 1 : 4, rng.coin()); done = true; }};
-    const auto deadline = std::chrono::steady_clock::now() + std::chrono::seconds(120);
-    while (!done && std::chrono::steady_clock::now() < deadline) { std::this_thread::sleep_for(std::chrono::milliseconds(1)); vh::heartbeat(); }
+    {   // bounded progress: fires only after 60 s without any queue/pool hook event or mock write
+        auto last_change = std::chrono::steady_clock::now();
+        auto events = [] { return vhk::hs().events.load() + vhk::hs().pushes.load() + vhk::hs().pops.load() + static_cast<uint64_t>(g_mock_writes.load()); };
+        uint64_t last_events = events();
+        while (!done) {
+            const uint64_t ev = events();
+            const auto now = std::chrono::steady_clock::now();
+            if (ev != last_events) { last_events = ev; last_change = now; }
+            else if (now - last_change > std::chrono::seconds(60)) break;
+            std::this_thread::sleep_for(std::chrono::milliseconds(1));
+            vh::heartbeat();
+        }
+    }
     if (!done) {
         vh::violation(std::string("hang: Writer call or destructor did not return: ") + KN[kind], cfg_name(c));
         runner.detach();
